@@ -556,30 +556,32 @@ func c06Length(c *Ctx, p *Prog) {
 				bad = "the mask is not taken from DRBG.NextBlock()"
 			}
 			// length side: uint16(len(box) - 2)
-			lc := p.newLin()
+			// (proved with the bounds engine: any expression equal to len(box)-2, the box being
+			// Seal's result of length 2+len(payload)+16)
+			bd := p.NewBounds()
 			cv, okc := unspill(lenSide).(*ssa.Convert)
 			if !okc {
 				bad = "the length is not uint16(len(box)-2)"
-			} else {
-				l := lc.Of(cv.X)
-				okL := l.C == -2 && len(l.T) == 1
-				for name, co := range l.T {
-					rep := lc.rep[name]
-					lcall, _ := callOf(rep)
-					if co != 1 || lcall == nil || p.CalleeID(lcall.Common()) != "builtin:len" || unspill(lcall.Common().Args[0]) != ssa.Value(seal) {
-						okL = false
-					}
-				}
+			} else if pc, isCall := puts[0].(*ssa.Call); isCall {
+				okL, why := bd.Prove(enc, pc, func(s *scope, pr *proof) []Cons {
+					bl, _ := s.lenLin(seal, pr)
+					return eq(s.lin(cv.X, pr), bl.Sub(linConst(2)))
+				})
 				if !okL {
-					bad = "the length is " + l.String() + ", expected len(box)-2"
+					bad = "the length written is not provably len(box)-2 (" + why + ")"
 				}
 			}
 		}
 		// returns len(box)
 		for _, r := range p.Facts(enc).SuccessReturns() {
-			lcall, _ := callOf(unspill(r.Results[0]))
-			if lcall == nil || p.CalleeID(lcall.Common()) != "builtin:len" || unspill(lcall.Common().Args[0]) != ssa.Value(seal) {
-				bad = "Encode does not return len(box)"
+			r := r
+			bd := p.NewBounds()
+			okR, why := bd.Prove(enc, r, func(s *scope, pr *proof) []Cons {
+				bl, _ := s.lenLin(seal, pr)
+				return eq(s.lin(r.Results[0], pr), bl)
+			})
+			if !okR {
+				bad = "Encode does not return len(box) (" + why + ")"
 			}
 		}
 	}
@@ -725,31 +727,75 @@ func c06Drbg(c *Ctx, p *Prog, rule string) {
 					bad = "the hash is not fed the OFB register"
 				}
 			}
-		case "Sum":
+		case "Sum", "Sum64":
 			sum = call
 		}
 	})
-	if strings.Join(ops, ",") != "Write,Sum" {
+	isOfb := func(v ssa.Value) bool {
+		k, ok := fieldAddrKey(sliceBase(v))
+		return ok && k.Type == tDrbg && k.Field == "ofb"
+	}
+	if j := strings.Join(ops, ","); j != "Write,Sum" && j != "Write,Sum64" {
 		bad = fmt.Sprintf("operations on the running hash in NextBlock are [%s], expected [Write,Sum]", strings.Join(ops, ","))
 	} else if !instrDominates(wr, sum) || blockOnCycle(wr.Block()) {
 		bad = "Write does not precede Sum exactly once"
 	} else {
-		okCopy := false
+		// the register is replaced by the digest: copy(ofb, Sum(nil)), or — SipHash's Sum being the
+		// little-endian serialisation of Sum64 — LittleEndian.PutUint64(ofb, Sum64())
+		var upd ssa.Instruction
 		for _, cp := range p.CallsIn(nbk, "builtin:copy") {
 			a := cp.Common().Args
-			if k, ok := fieldAddrKey(sliceBase(a[0])); ok && k.Type == tDrbg && k.Field == "ofb" && unspill(a[1]) == ssa.Value(sum) && instrDominates(sum, cp) {
-				okCopy = true
+			if isOfb(a[0]) && unspill(a[1]) == ssa.Value(sum) && instrDominates(sum, cp) {
+				upd = cp
 			}
 		}
-		if !okCopy {
+		for _, pu := range p.CallsIn(nbk, "(encoding/binary.littleEndian).PutUint64") {
+			a := pu.Common().Args
+			if isOfb(a[1]) && unspill(a[2]) == ssa.Value(sum) && sum.Common().Method != nil && sum.Common().Method.Name() == "Sum64" {
+				upd = pu
+			}
+		}
+		if upd == nil {
 			bad = "the register is not replaced by the digest"
 		}
 		for _, r := range returnsOf(nbk) {
-			cl, _ := callOf(unspill(r.Results[0]))
-			if cl == nil || p.CalleeID(cl.Common()) != "bytes.Clone" {
-				bad = "NextBlock does not return a copy (bytes.Clone) of the register: callers would alias the generator's state"
-			} else if k, ok := fieldAddrKey(sliceBase(cl.Common().Args[0])); !ok || k.Field != "ofb" {
-				bad = "NextBlock does not return the new register value"
+			v := unspill(r.Results[0])
+			okRet := false
+			why := "NextBlock does not return a copy of the new register: callers would alias the generator's state, or get something else"
+			if cl, _ := callOf(v); cl != nil {
+				switch {
+				case p.CalleeID(cl.Common()) == "bytes.Clone" && isOfb(cl.Common().Args[0]) && upd != nil && instrDominates(upd, cl):
+					okRet = true
+				case cl == sum && sum.Common().Method != nil && sum.Common().Method.Name() == "Sum" && isNilConst(sum.Common().Args[0]):
+					okRet = true // the fresh digest slice itself: same bytes as the new register, not aliased
+				case p.CalleeID(cl.Common()) == "builtin:append" && len(cl.Common().Args) == 2 && isOfb(cl.Common().Args[1]) && upd != nil && instrDominates(upd, cl):
+					if b0 := unspill(cl.Common().Args[0]); isNilConst(b0) {
+						okRet = true
+					} else if sl, ok := b0.(*ssa.Slice); ok {
+						if _, fresh := unspill(sl.X).(*ssa.Alloc); fresh {
+							okRet = true
+						}
+					}
+				}
+			}
+			// a fresh buffer filled from the register after the update
+			fresh := false
+			switch x := v.(type) {
+			case *ssa.MakeSlice:
+				fresh = true
+			case *ssa.Slice:
+				_, fresh = unspill(x.X).(*ssa.Alloc)
+			}
+			if fresh && upd != nil {
+				for _, cp := range p.CallsIn(nbk, "builtin:copy") {
+					a := cp.Common().Args
+					if unspill(a[0]) == v && isOfb(a[1]) && instrDominates(upd, cp) && instrDominates(cp, r) {
+						okRet = true
+					}
+				}
+			}
+			if !okRet {
+				bad = why
 			}
 		}
 	}
@@ -771,7 +817,7 @@ func c06Drbg(c *Ctx, p *Prog, rule string) {
 				return
 			}
 			r, m, _ := recvOf(call)
-			if r != nil && isFieldLoad(r, tDrbg, "sip") && m != "Write" && m != "Sum" {
+			if r != nil && isFieldLoad(r, tDrbg, "sip") && m != "Write" && m != "Sum" && m != "Sum64" && m != "Size" && m != "BlockSize" {
 				bad = m + " on the running hash at " + p.InstrPos(call)
 			}
 			if r != nil && isFieldLoad(r, tDrbg, "sip") && fn != nbk {
@@ -798,11 +844,7 @@ func c06Drbg(c *Ctx, p *Prog, rule string) {
 			continue
 		}
 		and, ok := unspill(cv.X).(*ssa.BinOp)
-		if !ok || and.Op != token.AND {
-			continue
-		}
-		k, ok := and.Y.(*ssa.Const)
-		if !ok || k.Value == nil || k.Value.ExactString() != "9223372036854775807" {
+		if !ok || !clearsTopBit64(and) {
 			continue
 		}
 		uc, _ := callOf(unspill(and.X))
@@ -1175,4 +1217,19 @@ func c06AcceptsAll(p *Prog, fn *ssa.Function, vals []int64) string {
 		}
 	}
 	return ""
+}
+
+// clearsTopBit64: x & (1<<63-1)  or  x &^ (1<<63).
+func clearsTopBit64(b *ssa.BinOp) bool {
+	k, ok := b.Y.(*ssa.Const)
+	if !ok || k.Value == nil {
+		return false
+	}
+	switch b.Op {
+	case token.AND:
+		return k.Value.ExactString() == "9223372036854775807"
+	case token.AND_NOT:
+		return k.Value.ExactString() == "9223372036854775808"
+	}
+	return false
 }
